@@ -813,7 +813,7 @@ class ClockHist(Sub):
                     ops.append(["fwd", draw(st.integers(0, 9999))])
                     forwarded = True
                 elif k == "reset":
-                    ops.append(["reset", draw(tval)])
+                    ops.append(["reset", draw(tval)] + (["tensor"] if draw(st.integers(0, 2)) == 0 else []))
                 elif k == "reset0":
                     ops.append(["reset0"])
                 elif k == "systime":
@@ -857,6 +857,7 @@ class ClockHist(Sub):
             system = L.sys
             n, m = case["n"], case["m"]
         ck = RD.Clock()
+        held = {}              # caller-held time tensors (value -> tensor), reused across ops; must never be changed by the system
         last = None            # most recent (state, input) of a call
         ref = None             # NLS: tracked reference point (x*, u*, t*, time_was_none, clock_at_set)
         used, patterns = set(), set()
@@ -866,6 +867,10 @@ class ClockHist(Sub):
         for idx, op in enumerate(case["ops"]):
             k = op[0]
             tag = "op %d %s" % (idx, op)
+            for hv, ht in held.items():
+                if not rec.check(int(ht) == hv, "clock:caller_tensor_changed", "before %s: the int64 tensor the caller passed as time %d now reads %d "
+                                 "(the system kept and advanced the caller's tensor)" % (tag, hv, int(ht))):
+                    return
             before = ck.t
             if k == "fwd":
                 rs = np.random.RandomState(op[1])
@@ -882,8 +887,14 @@ class ClockHist(Sub):
                     L.check_step(rec, x, u, tnow, z, y, tag)
                 last = (x, u)
             elif k == "reset":
+                if len(op) > 2 and op[2] == "tensor":
+                    # a caller-held int64 tensor, REUSED for later resets to the same time: the system must copy the value,
+                    # not keep (and later advance) the caller's tensor
+                    targ = held.setdefault(op[1], torch.tensor(op[1]))
+                else:
+                    targ = op[1]
                 with rec.sut("reset(t)"):
-                    r = system.reset(op[1])
+                    r = system.reset(targ)
                 rec.check(r is system, "reset:return", "reset(t) did not return the module (the NLS example chains it)")
                 ck.set(op[1])
             elif k == "reset0":
@@ -893,7 +904,7 @@ class ClockHist(Sub):
                 ck.set(0)
             elif k == "systime":
                 with rec.sut("systime = t"):
-                    system.systime = op[1] if op[2] == "int" else torch.tensor(op[1])
+                    system.systime = op[1] if op[2] == "int" else held.setdefault(op[1], torch.tensor(op[1]))
                 ck.set(op[1])
             elif k == "refpoint":
                 hs, hi, t = op[1], op[2], op[3]
